@@ -180,7 +180,7 @@ pub fn run(tier: Tier) -> Report {
                         let clean = r.violations.is_empty();
                         rep.merge(r);
                         if clean && n % 4099 == 0 {
-                            crate::engine::validate_case(&mut rep, replay, json!({"kind": "seq", "n": n.to_string(), "steps": [[n + 3, n - 1], [4, 4]]}));
+                            crate::engine::validate_case(&mut rep, replay, json!({"kind": "seq", "n": n.to_string(), "steps": [[n + 3, n - 1], [4, 1]]}));
                         }
                     }
                     Err(p) => rep.violation(Violation { key: format!("C08:panic:{}", crate::engine::panic_site(&p)), ord: n, what: format!("N={}: {}", n, p), replay: json!({"kind": "sweep", "n": n.to_string()}) }),
